@@ -613,7 +613,12 @@ func genC27(seed uint64) *Plan {
 				label = "truncated_body"
 			case 4:
 				// statistics report with a huge count
-				b := append(p.perPeerHeader(false), 0xff, 0xff, 0xff, 0xff)
+				// (values whose product with the TLV header size wraps around 32 bits included)
+				cnt := pick(r, []uint32{0xffffffff, 0x40000000, 0x80000000, 0x40000001, 0x00ffffff, 0x3fffffff, 70000})
+				b := append(p.perPeerHeader(false), byte(cnt>>24), byte(cnt>>16), byte(cnt>>8), byte(cnt))
+				if r.Chance(0.5) {
+					b = append(b, 0, 0, 0, 4, 0, 0, 0, 1) // one real counter after the lie
+				}
 				raw = bmpMsg(bmpStats, b)
 				label = "huge_stats_count"
 			case 5:
